@@ -15,3 +15,4 @@ import GoNeat.Props.C02
 import GoNeat.Props.C02Ids
 import GoNeat.Props.C02Epoch
 import GoNeat.Props.C08Batch
+import GoNeat.Props.C10Sort
